@@ -24,7 +24,12 @@ G = [
     [("CACHE {v}", "cache", "int"), ("CACHE", "cache", True)],
     [("ORDER", "order", True), ("NOORDER", "noorder", True)],
 ]
-VALS = [0, 1, -1, 5, 2 ** 31, -2 ** 31, 2 ** 63 - 1, -2 ** 63]
+VALS = [0, 1, -1, 5, 2 ** 31, -2 ** 31, 2 ** 63 - 1, -2 ** 63,
+        # integers a double cannot hold (an int -> float -> int round trip changes them), both signs
+        -(2 ** 63 - 1), 2 ** 53 + 1, -(2 ** 53 + 1), 10 ** 18 + 1, -(10 ** 18 + 1), 2 ** 63 - 3]
+# spellings of the sequence name: (schema, name) as written
+NAMEFORMS = [(None, "q1"), ("s", "q1"), (None, '"Q1"'), ('"S"', '"Q1"'), ("s", '"Q1"'), ('"S"', "q1"), (None, "`q1`"), ("`s`", "`q1`"), (None, "[q1]"),
+             ("[s]", "[q1]"), ("S", "Q1"), ("s_1", "q_1")]
 TAB_BEFORE = "CREATE TABLE tb (increment int, start int, cache int DEFAULT 3);"
 TAB_AFTER = "CREATE TABLE ta (cache int, minvalue int, maxvalue int, no int, noorder int);"
 SEQ2 = "CREATE SEQUENCE s.q2 START 7;"
@@ -59,13 +64,20 @@ def gen_cases(tier):
             cases.append({"sel": s, "voff": 2, "kcase": "upper", "ctx": "twoseq"})
         elif len(s) == 3:
             cases.append({"sel": s, "voff": 1, "kcase": "upper", "ctx": "between"})
+        if len(s) <= 1 or (len(s) == 2 and s[0][1] == 0 and s[1][1] == 0):
+            for ni in range(2, len(NAMEFORMS)):
+                for nn in (False, True):
+                    cases.append({"sel": s, "voff": 1, "kcase": "upper", "ctx": "alone", "name": ni, "nn": nn})
     return cases
 
 
 def build(case):
     vals = VALS[case["voff"]:] + VALS[:case["voff"]]
-    schema = None if case["ctx"] == "noschema" else "s"
-    exp = {"schema": schema, "sequence_name": "q1"}
+    schema, qname = (None if case["ctx"] == "noschema" else "s"), "q1"
+    if "name" in case:
+        schema, qname = NAMEFORMS[case["name"]]
+    strip = (lambda x: x[1:-1] if x and x[0] in '"`[' and case.get("nn") else x)
+    exp = {"schema": strip(schema), "sequence_name": strip(qname)}
     parts = []
     for n, (g, sp) in enumerate(case["sel"]):
         txt, key, kind = G[g][sp]
@@ -73,7 +85,7 @@ def build(case):
         parts.append(CASEF[case["kcase"]](txt).replace("{V}", "{v}").format(v=v))
         exp[key] = v if kind == "int" else kind
     head = CASEF[case["kcase"]]("CREATE SEQUENCE")
-    st = (head + " " + ("s." if schema else "") + "q1 " + " ".join(parts)).rstrip() + ";"
+    st = (head + " " + (schema + "." if schema else "") + qname + " " + " ".join(parts)).rstrip() + ";"
     if case["ctx"] == "between":
         ddl = TAB_BEFORE + "\n" + st + "\n" + TAB_AFTER
     elif case["ctx"] == "twoseq":
@@ -85,7 +97,7 @@ def build(case):
 
 def evaluate(case):
     ddl, exp = build(case)
-    r = run_ddl(ddl)
+    r = run_ddl(ddl, {"normalize_names": True} if case.get("nn") else None)
     diffs = []
     if r[0] != "ok":
         diffs.append(diff("run", "raises", "result", r[1:3]))
@@ -117,4 +129,4 @@ def describe(case):
 
 
 def snippet(case):
-    return _snip(build(case)[0])
+    return _snip(build(case)[0], {"normalize_names": True} if case.get("nn") else None)
